@@ -8,6 +8,7 @@ import (
 	"go/types"
 	"sort"
 	"strings"
+	"unicode"
 
 	"golang.org/x/tools/go/packages"
 )
@@ -109,11 +110,50 @@ func rsFromString(chars string) runeSet {
 	return s.norm()
 }
 
+// the classification tables of package unicode, as sets
+var unicodePreds = map[string]func(rune) bool{
+	"IsLetter": unicode.IsLetter, "IsDigit": unicode.IsDigit, "IsNumber": unicode.IsNumber,
+	"IsSpace": unicode.IsSpace, "IsUpper": unicode.IsUpper, "IsLower": unicode.IsLower,
+	"IsPunct": unicode.IsPunct, "IsGraphic": unicode.IsGraphic, "IsPrint": unicode.IsPrint,
+	"IsControl": unicode.IsControl, "IsSymbol": unicode.IsSymbol, "IsMark": unicode.IsMark, "IsTitle": unicode.IsTitle,
+}
+
+var rsPredCache = map[string]runeSet{}
+
+func rsFromPred(pred func(rune) bool) runeSet {
+	key := fmt.Sprintf("%p", pred)
+	if s, ok := rsPredCache[key]; ok {
+		return s
+	}
+	var out runeSet
+	inRun := false
+	var lo rune
+	for r := rune(0); r <= maxRune; r++ {
+		if pred(r) {
+			if !inRun {
+				inRun, lo = true, r
+			}
+		} else if inRun {
+			out = append(out, runeRange{lo, r - 1})
+			inRun = false
+		}
+	}
+	if inRun {
+		out = append(out, runeRange{lo, maxRune})
+	}
+	rsPredCache[key] = out
+	return out
+}
+
 // runePredEval evaluates boolean expressions over one rune variable.
 type runePredEval struct {
 	pk    *packages.Package
 	depth int
 	env   map[types.Object]runeBinding // locals defined once from the rune (`c := byte(r) | 0x20`)
+	// assume: truth values given to conditions that are not about the rune (by source text, e.g. "i == 0")
+	assume map[string]bool
+	// fallOff: what a statement list yields when control runs off its end (nil = undecidable)
+	fallOff *runeSet
 }
 
 // runeTerm: an integer expression in the rune variable — the variable itself
@@ -299,6 +339,12 @@ func (ev *runePredEval) eval(e ast.Expr, arg types.Object) (runeSet, bool) {
 		}
 		return rsNone(), true
 	}
+	if b, ok := ev.assume[types.ExprString(e)]; ok {
+		if b {
+			return rsAll(), true
+		}
+		return rsNone(), true
+	}
 	switch x := e.(type) {
 	case *ast.Ident:
 		if b, ok := ev.env[info.Uses[x]]; ok && b.bool {
@@ -389,6 +435,14 @@ func (ev *runePredEval) eval(e ast.Expr, arg types.Object) (runeSet, bool) {
 			}
 		}
 	case *ast.CallExpr:
+		// a predicate of package unicode applied to the rune: its table is the set
+		if len(x.Args) == 1 && ev.isArg(x.Args[0], arg) {
+			if fn := calleeFunc(info, x); fn != nil && fn.Pkg() != nil && fn.Pkg().Path() == "unicode" {
+				if pred, ok := unicodePreds[fn.Name()]; ok {
+					return rsFromPred(pred), true
+				}
+			}
+		}
 		// call of another single-rune predicate of the same package with the rune as argument
 		if len(x.Args) == 1 && ev.isArg(x.Args[0], arg) && ev.depth < 5 {
 			if fn := calleeFunc(info, x); fn != nil && fn.Pkg() != nil && fn.Pkg().Path() == ev.pk.PkgPath {
@@ -448,6 +502,9 @@ func (ev *runePredEval) evalPredFunc(fd *ast.FuncDecl) (runeSet, bool) {
 func (ev *runePredEval) evalStmts(list []ast.Stmt, arg types.Object) (runeSet, bool) {
 	info := ev.pk.TypesInfo
 	if len(list) == 0 {
+		if ev.fallOff != nil {
+			return *ev.fallOff, true
+		}
 		return nil, false
 	}
 	switch s := list[0].(type) {
